@@ -12,7 +12,7 @@ BASE = $(STD) $(WARN) -g -DPARMCB_VERIF -DBOOST_ALLOW_DEPRECATED_HEADERS -DBOOST
 
 FLAGS_asu = -O1 -fsanitize=address,undefined -fno-sanitize-recover=all -fno-sanitize=vptr
 FLAGS_tsan = -O1 -fsanitize=thread -Wl,--wrap=_Znwm,--wrap=_Znam,--wrap=_ZdlPv,--wrap=_ZdaPv,--wrap=_ZdlPvm,--wrap=_ZdaPvm
-FLAGS_plain = -O2
+FLAGS_plain = -O2 -gdwarf-4 -DSIM_WRAP_NEW -Wl,--wrap=_Znwm,--wrap=_Znam,--wrap=_ZdlPv,--wrap=_ZdaPv,--wrap=_ZdlPvm,--wrap=_ZdaPvm
 
 INC_seq = -I$(B)/gen/seq -I$(REPO)/include
 INC_par = -Isim/include -I$(B)/gen/par -I$(REPO)/include
